@@ -530,13 +530,20 @@ fn far_part(a: &IMp, b: &IMp, side: u32, rng: &mut Rng) -> IPoly {
         (Some(x), None) | (None, Some(x)) => x,
         _ => (0, 0, 0, 0),
     };
-    let gap = rng.range(1, 40);
-    let (w, h) = (rng.range(1, 6), rng.range(1, 6));
+    // sizes relative to the extent of the operands (families scaled to integral meeting points have extents in the
+    // hundreds): the far part may be taller / wider than everything else, so that it moves the operand's bounding box
+    // in the OTHER direction too (a part far to the right that raises the top of the box)
+    let ext = (u.2 - u.0).max(u.3 - u.1).max(8);
+    let m = (ext / 4).max(3);
+    let gap = rng.range(1, 40.max(m));
+    let tall = rng.chance(1, 2);
+    let (w, h) = (rng.range(1, 6.max(m)), rng.range(1, 6.max(if tall { ext + m } else { m })));
+    let (w, h) = if side < 2 { (w, h) } else { (h, w) };     // the long dimension runs along the side the part is placed on
     let (x0, y0) = match side {
-        0 => (u.0 - gap - w, rng.range(u.1 - 3, u.3 + 3)),
-        1 => (u.2 + gap, rng.range(u.1 - 3, u.3 + 3)),
-        2 => (rng.range(u.0 - 3, u.2 + 3), u.3 + gap),
-        _ => (rng.range(u.0 - 3, u.2 + 3), u.1 - gap - h),
+        0 => (u.0 - gap - w, rng.range(u.1 - m, u.3 + 3)),
+        1 => (u.2 + gap, rng.range(u.1 - m, u.3 + 3)),
+        2 => (rng.range(u.0 - m, u.2 + 3), u.3 + gap),
+        _ => (rng.range(u.0 - m, u.2 + 3), u.1 - gap - h),
     };
     let ring = if rng.chance(1, 2) {
         vec![(x0, y0), (x0 + w, y0), (x0 + w, y0 + h), (x0, y0 + h), (x0, y0)]
